@@ -146,6 +146,10 @@ def check(prop_id, tier, seed, only=None):
         out_lines.append("  failed obligation: %s/%s (%s) inputs=%s" % (j.name, ob["name"], ob["loc"], json.dumps(r.trace_inputs, sort_keys=True)[:300]))
         nviol += 1
         vio_records.append({"job": j.name, "obligation": ob["name"], "replay": rep_path, "reproduced_natively": repro})
+    for j in jobs:
+        if getattr(j.result, "other_failed", None):
+            out_lines.append("NOTE property=%s job=%s: %d failed obligation(s) that are clauses of other properties (%s) - decided by those properties' checks"
+                             % (prop_id, j.name, len(j.result.other_failed), ", ".join(sorted(set(o["name"] for o in j.result.other_failed)))[:300]))
     for (j, reason) in undecided:
         out_lines.append("UNDECIDED property=%s job=%s: %s" % (prop_id, j.name, reason))
 
